@@ -323,7 +323,7 @@ void harness(void)
     struct host_query    *hq;
     struct ares_addrinfo *ai;
     size_t                k, cnt = refcnt, had_nodata;
-    int                   st, last, pre_nodes = 0, nodes_after, eff, nosort;
+    int                   st, last, pre_nodes = 0, pre_nomem = 0, nodes_after, eff, nosort;
     ares_dns_record_t    *resp = NULL;
     char                  cand[16], nextcand[16];
     const char           *rest; /* lookup methods after the current 'b' */
@@ -373,6 +373,11 @@ void harness(void)
       add_node(ai, vp_bool() ? AF_INET : AF_INET6, hq->port);
       pre_nodes = 1;
     }
+    /* ... or the sibling's accepted answer could not be converted for lack of memory (C13/C14: its addresses are lost,
+     * so the lookup must not end as a success with a partial list).  State invariant: the mark is only ever set by a
+     * failed conversion of an answer for the current name. */
+    pre_nomem = (FAM == 0 && last && vp_bool());
+    hq->nomem = pre_nomem ? ARES_TRUE : ARES_FALSE;
     copy_name(cand, hq->names[k - 1]);
     nextcand[0] = 0;
     if (k < cnt) copy_name(nextcand, hq->names[k]);
@@ -392,11 +397,17 @@ void harness(void)
     if (!last) {
       VP_ASSERT(user_cb_count == 0 && sends == 0 && hosts_lookups == 0, "nothing is decided while the sibling request is outstanding");
       VP_ASSERT(hq->remaining == 1, "one request still outstanding");
+      VP_ASSERT((hq->nomem == ARES_TRUE) == (st == ARES_SUCCESS && parse_result == 3),
+                "an answer that could not be converted for lack of memory is remembered until the sibling completes (and nothing else sets the mark)");
       pending = 1;
       VP_WITNESS("sibling outstanding");
     } else if (st == ARES_EDESTRUCTION || st == ARES_ECANCELLED) {
       VP_ASSERT(user_cb_count == 1 && user_status == st && sends == 0 && hosts_lookups == 0, "cancel/destroy ends the lookup with that status");
       VP_WITNESS("cancelled");
+    } else if (pre_nomem) {
+      VP_ASSERT(user_cb_count == 1 && user_status == ARES_ENOMEM && sends == 0 && hosts_lookups == 0,
+                "addresses of an accepted answer were lost for lack of memory: the lookup reports ARES_ENOMEM, never a partial success");
+      VP_WITNESS("sibling ran out of memory");
     } else if (st == ARES_SUCCESS && parse_result == 3) {
       VP_ASSERT(user_cb_count == 1 && user_status == ARES_ENOMEM && sends == 0, "out of memory while collecting addresses is a hard error");
     } else if (st == ARES_SUCCESS && parse_result == 2) {
